@@ -57,9 +57,10 @@ Print Assumptions C02_canon.
 (* (4) the ask automaton (single ask, initial-points branch, constant-liar loop, qLCB, one-shot topk / boltzmann): along
        EVERY history of tell / ask events - whatever numbers of failed / successful results were told, whatever the
        libraries returned - every point handed out is a member of the space and is accepted back by tell's check *)
-Theorem C02_ask_paths_original_space : forall (R lg : Q -> Q) (pw : Q -> Q -> Q) sp n_initial dummy user design evs,
+Theorem C02_ask_paths_original_space : forall (R lg : Q -> Q) (pw : Q -> Q -> Q) sp actf v n_initial dummy user design evs,
+  v <> Pinned ->
   wf_space sp = true -> Forall (fun r => in_space sp r = true) user -> Forall (ev_ok sp) evs ->
-  let pts := asked R lg pw Fixed sp (init_state R lg pw sp n_initial dummy user design) evs in
+  let pts := asked R lg pw v sp actf (init_state R lg pw sp n_initial dummy user design) evs in
   Forall (fun r => in_space sp r = true) pts /\ Forall (fun r => check_x sp r = TOk) pts.
 Proof. exact ask_paths_original_space. Qed.
 Print Assumptions C02_ask_paths_original_space.
@@ -67,13 +68,39 @@ Print Assumptions C02_ask_paths_original_space.
 (* the pinned one-shot branches (topk / boltzmann return rows of _last_X, the TRANSFORMED candidates): a history on which
    both returned points are outside the space and are rejected by tell - while the repaired branch returns members (F03) *)
 Theorem C02_topk_refuted :
-  exists R lg pw sp st evs,
+  exists R lg pw sp actf st evs,
     wf_space sp = true /\ Inv R lg sp st /\ Forall (ev_ok sp) evs /\
-    List.length (asked R lg pw Pinned sp st evs) = 2%nat /\
-    Forall (fun r => in_space sp r = false /\ check_x sp r = TErrBounds) (asked R lg pw Pinned sp st evs) /\
-    Forall (fun r => in_space sp r = true) (asked R lg pw Fixed sp st evs).
+    List.length (asked R lg pw Pinned sp actf st evs) = 2%nat /\
+    Forall (fun r => in_space sp r = false /\ check_x sp r = TErrBounds) (asked R lg pw Pinned sp actf st evs) /\
+    Forall (fun r => in_space sp r = true) (asked R lg pw Fixed sp actf st evs).
 Proof. exact topk_refuted. Qed.
 Print Assumptions C02_topk_refuted.
+
+(* (4b) ... and carries the canonical value of every inactive dimension (deactivate_inactive_dimensions leaves it alone), for
+        every activity function actf that ignores the values of inactive dimensions, when the caller's points and the random
+        samples are canonical (Space.rvs pins them; re-checked on every run) and there is no quasi-random design (the property
+        quantifies constrained spaces with the random design only).  This is the statement the round trip
+        inverse_transform(transform(candidate)) - which is NOT exact for log-uniform floats - would break without the final
+        deactivate_inactive_dimensions. *)
+Theorem C02_ask_paths_canonical : forall (R lg : Q -> Q) (pw : Q -> Q -> Q) sp actf n_initial dummy user evs,
+  (forall x, actf (deactivate sp actf x) = actf x) ->
+  Forall (canonical sp actf) user -> Forall (ev_canon sp actf) evs ->
+  Forall (canonical sp actf) (asked R lg pw Fixed sp actf (init_state R lg pw sp n_initial dummy user []) evs).
+Proof. exact ask_paths_canonical. Qed.
+Print Assumptions C02_ask_paths_canonical.
+
+(* the one-shot branches with fixes/F03 alone (inverse_transform but no deactivate_inactive_dimensions; /repo before fixes/F47):
+   with a rounding that errs upwards by a relative 2^-53 the inactive child comes back one step above its canonical lower
+   bound - a member of the space, accepted by tell, but not canonical; the repaired branch returns canonical points *)
+Theorem C02_oneshot_noncanonical_refuted :
+  exists R lg pw sp actf st evs user,
+    wf_space sp = true /\ Forall (ev_ok sp) evs /\ (forall x, actf (deactivate sp actf x) = actf x) /\
+    Forall (canonical sp actf) user /\
+    Forall (fun r => in_space sp r = true) (asked R lg pw Decoded sp actf st evs) /\
+    Exists (fun r => deactivate sp actf r <> r) (asked R lg pw Decoded sp actf st evs) /\
+    Forall (canonical sp actf) (asked R lg pw Fixed sp actf st evs).
+Proof. exact oneshot_noncanonical_refuted. Qed.
+Print Assumptions C02_oneshot_noncanonical_refuted.
 
 (* (5) the option lists the harness enumerates are the ones the source accepts (GENERATED facts), and every accepted
        acquisition function / strategy is forwarded to the Optimizer under a name the Optimizer accepts *)
@@ -107,9 +134,9 @@ Proof. exact accept_ask_member. Qed.
 Print Assumptions C02_oracle_ask.
 
 (* the checker's next-state functions are the automaton's (step-wise correspondence compares these with the implementation) *)
-Theorem C02_post_state : forall R lg pw v sp st,
-  (forall n s orc, ask_post st n s = obs_of (snd (ask_points R lg pw v sp st n s orc))) /\
-  (forall k fit cands z act, tell_post st k fit = obs_of (tell_state R lg pw sp st k fit cands z act)).
+Theorem C02_post_state : forall R lg pw v sp actf st,
+  (forall n s orc, ask_post st n s = obs_of (snd (ask_points R lg pw v sp actf st n s orc))) /\
+  (forall k fit cands z, tell_post st k fit = obs_of (tell_state R lg pw sp actf st k fit cands z)).
 Proof. exact post_state. Qed.
 Print Assumptions C02_post_state.
 
@@ -141,17 +168,17 @@ Proof. reflexivity. Qed.
 (* a history that visits the initial-points branch, the fit, the single ask, topk, qLCB and the constant-liar loop *)
 Definition ex_evs : list event :=
   [ Ask (Some 3%nat) StCL (mkOr [[5 # 1000; 7; 1; 2]] [] []);
-    Tell 3 true [[1; 50; 2; 16]; [100; 3; 0; 1]] [3; 40; 1; 2] [true; true; true; true];
+    Tell 3 true [[1; 50; 2; 16]; [100; 3; 0; 1]] [3; 40; 1; 2];
     Ask None StCL (mkOr [] [] []);
     Ask (Some 2%nat) StTopk (mkOr [] [1%nat; 0%nat] []);
     Ask (Some 2%nat) StQ (mkOr [[2; 9; 1; 4]] [0%nat] []);
-    Ask (Some 2%nat) StCL (mkOr [] [] [([0; 0; 0; 1], [true; true; true; true]); ([9; 200; 5; 16], [true; false; true; true])]) ].
+    Ask (Some 2%nat) StCL (mkOr [] [] [[0; 0; 0; 1]; [9; 200; 5; 16]]) ].
 
 Example ex_history_ok : Forall (ev_ok ex_sp) ex_evs.
 Proof. repeat constructor. Qed.
 
 Example ex_history_len :
-  List.length (asked Rid lg0 pw0 Fixed ex_sp (init_state Rid lg0 pw0 ex_sp 3 false [[1; 1; 0; 1]] [[0; 1; 1 # 2; 0]]) ex_evs) = 10%nat.
+  List.length (asked Rid lg0 pw0 Fixed ex_sp act_all (init_state Rid lg0 pw0 ex_sp 3 false [[1; 1; 0; 1]] [[0; 1; 1 # 2; 0]]) ex_evs) = 10%nat.
 Proof. vm_compute. reflexivity. Qed.
 
 (* the configuration oracle accepts a valid configuration and names the first failing clause otherwise *)
